@@ -121,6 +121,7 @@ struct ChanObs {
     decode_error: Option<String>,
     partial: usize,
     refused: bool,
+    eof: bool,
 }
 
 struct Obs {
@@ -256,6 +257,7 @@ fn execute(case: &CCase) -> Obs {
                     decode_error: c.decode_error.clone(),
                     partial: c.partial_bytes(),
                     refused: c.refused_by_agent,
+                    eof: c.eof,
                 })
                 .collect(),
             idle,
@@ -298,7 +300,7 @@ pub fn check(case: &CCase) -> Verdict {
     if dump {
         eprintln!("trace: {:?}", obs.trace);
         for (i, c) in obs.chans.iter().enumerate() {
-            eprintln!("chan {} key={} cap={} opened={} refused={}", i, c.key, c.cap, c.opened_seq, c.refused);
+            eprintln!("chan {} key={} cap={} opened={} refused={} eof={}", i, c.key, c.cap, c.opened_seq, c.refused, c.eof);
             for f in &c.frames {
                 eprintln!("   {} {} {} {:?}", f.seq, f.node, f.lane, match &f.kind {
                     CmdFrameKind::Command(b) => String::from_utf8_lossy(b).to_string(),
@@ -432,33 +434,46 @@ pub fn check(case: &CCase) -> Verdict {
                 format!("target {:?}: {} forwarded before {} but sent after it. {}", TARGETS[t], s[w[0]].v, s[w[1]].v, summary()),
             );
         }
+        // one failure per (target, kind of loss): the first lost command and how many there are
+        let mut lost_q: Vec<i64> = vec![];
+        let mut lost_last: Vec<i64> = vec![];
+        let mut lost_ns: Vec<(i64, u64, i64, u64)> = vec![];
         for (i, c) in s.iter().enumerate() {
             if count[i] > 0 {
                 continue;
             }
             if !c.ow {
-                v.fail(
-                    "sent-cmd-lost:not-overwritable",
-                    format!("target {:?}: the non-overwritable command {} was never forwarded. {}", TARGETS[t], c.v, summary()),
-                );
+                lost_q.push(c.v);
             } else if i + 1 == s.len() {
-                v.fail(
-                    "sent-cmd-lost:nothing-later",
-                    format!("target {:?}: the overwritable command {} was never forwarded although no later command was sent to the same target. {}", TARGETS[t], c.v, summary()),
-                );
+                lost_last.push(c.v);
             } else {
                 // it may only have been superseded by a later command to the same target sent
                 // before it left: at a quiescent point everything pending has left
                 let next = &s[i + 1];
                 if obs.quiescent.iter().any(|q| *q > c.seq && *q < next.seq) {
-                    v.fail(
-                        "sent-cmd-lost:not-superseded",
-                        format!("target {:?}: the overwritable command {} (sent at {}) was never forwarded although the system was quiescent before the next command to the same target ({} at {}). {}", TARGETS[t], c.v, c.seq, next.v, next.seq, summary()),
-                    );
+                    lost_ns.push((c.v, c.seq, next.v, next.seq));
                 } else {
                     superseded_total += 1;
                 }
             }
+        }
+        if let Some(first) = lost_q.first() {
+            v.fail(
+                "sent-cmd-lost:not-overwritable",
+                format!("target {:?}: {} non-overwritable commands were never forwarded, the first is {}. {}", TARGETS[t], lost_q.len(), first, summary()),
+            );
+        }
+        if let Some(first) = lost_last.first() {
+            v.fail(
+                "sent-cmd-lost:nothing-later",
+                format!("target {:?}: the overwritable command {} was never forwarded although no later command was sent to the same target. {}", TARGETS[t], first, summary()),
+            );
+        }
+        if let Some((val, seq, nv, nseq)) = lost_ns.first() {
+            v.fail(
+                "sent-cmd-lost:not-superseded",
+                format!("target {:?}: {} overwritable commands were never forwarded although the system was quiescent before the next command to the same target; the first is {} (sent at {}, next command {} at {}). {}", TARGETS[t], lost_ns.len(), val, seq, nv, nseq, summary()),
+            );
         }
 
         // non-trivial: for some program, more bytes of its commands to this target than the
